@@ -60,6 +60,8 @@ template<typename T, typename W> struct FiFam {
   }
   static const bool HAS_MERGE_REF = true, HAS_MERGE_MOVE = true, HAS_RESET = false, HAS_ROUNDTRIP = true;
   // x.merge(x): every counter, the total weight and the error offset double; no key is added, so nothing is purged
+  static const bool SINGLE_INSTANCE = true;
+  static Arena* arena_of(const Obj& o) { return o.map.get_allocator().arena; }   // private member: -fno-access-control
   static const int SELF_MERGE = SM_DOUBLES;
   static SelfMergeFacts self_merge_facts(const Obj& o, const Cfg&) {
     SelfMergeFacts f;
